@@ -1019,9 +1019,6 @@ func (z *zzG02Srv) query(rq *zzG02Rq, variant uint32) (o zzG02Obs, m string, err
 		// No (usable) reply is an observation, not a harness failure; a run
 		// in which the server hardly answers at all is abandoned.
 		z.stats["no_reply"]++
-		if z.stats["no_reply"] > 12 {
-			return o, m, fmt.Errorf("exchange %s %s: %w (more than 12 questions without a reply)", name, rq.Qt, err)
-		}
 		o.Rcode = "?noreply"
 		if len(log) == 1 && log[0][1] == rq.Qt {
 			o.Ask = z.conc.absName(log[0][0])
@@ -1131,10 +1128,17 @@ func (z *zzG02Srv) askAll(w *zzWriter, cfg *zzG02Cfg, qs []zzG02Rq, salt, how st
 			return qerr
 		}
 		w.put(map[string]any{"k": "p", "q": qs[qi], "m": m, "obs": o})
+		if z.stats["no_reply"] > 12 {
+			// the server hardly answers at all: what was seen so far is
+			// enough, every further question costs a timeout
+			return errZZG02Abandon
+		}
 	}
 
 	return nil
 }
+
+var errZZG02Abandon = fmt.Errorf("more than 12 questions without a reply")
 
 // TestZZVerifG02Pipeline is direction A at the pipeline level.
 func TestZZVerifG02Pipeline(t *testing.T) {
@@ -1156,12 +1160,13 @@ func TestZZVerifG02Pipeline(t *testing.T) {
 
 	maxAge := 20 + rng.Intn(40)
 	n := 0
+	abandoned := false
 	zzReadNDJSON(t, "VERIF_IN", func(line []byte) {
 		v := &zzG02Vec{}
 		if err := json.Unmarshal(line, v); err != nil {
 			t.Fatalf("vector: %v", err)
 		}
-		if v.Kind != "cfg" {
+		if v.Kind != "cfg" || abandoned {
 			return
 		}
 
@@ -1188,12 +1193,17 @@ func TestZZVerifG02Pipeline(t *testing.T) {
 		for _, g := range v.Vd {
 			qs = append(qs, g.Q...)
 		}
-		if err = z.askAll(w, &v.Cfg, qs, salt, how, v.ID, n); err != nil {
+		if abandoned {
+			return
+		}
+		if err = z.askAll(w, &v.Cfg, qs, salt, how, v.ID, n); err == errZZG02Abandon {
+			abandoned = true
+		} else if err != nil {
 			t.Fatalf("asking: %v", err)
 		}
 	})
 
-	w.put(map[string]any{"k": "summary", "n": n, "stats": stats})
+	w.put(map[string]any{"k": "summary", "n": n, "stats": stats, "abandoned": abandoned})
 }
 
 // TestZZVerifG02PipeProbe re-executes single questions on fresh servers:
@@ -1380,6 +1390,7 @@ func TestZZVerifG02PipeTrace(t *testing.T) {
 	if s := zzGetenv("VERIF_G02_TRACE_CFGS"); s != "" {
 		ncfg, _ = strconv.Atoi(s)
 	}
+	abandoned := false
 
 	var z *zzG02Srv
 	defer func() {
@@ -1410,10 +1421,14 @@ func TestZZVerifG02PipeTrace(t *testing.T) {
 		if err != nil {
 			t.Fatalf("configuration %d: %v", i, err)
 		}
-		if err = z.askAll(w, &cfg, zzG02BQueries(rng, &cfg, 12), salt, how, 100000+i, 100000+i); err != nil {
+		if err = z.askAll(w, &cfg, zzG02BQueries(rng, &cfg, 12), salt, how, 100000+i, 100000+i); err == errZZG02Abandon {
+			abandoned = true
+
+			break
+		} else if err != nil {
 			t.Fatalf("asking: %v", err)
 		}
 	}
 
-	w.put(map[string]any{"k": "summary", "n": ncfg, "stats": stats})
+	w.put(map[string]any{"k": "summary", "n": ncfg, "stats": stats, "abandoned": abandoned})
 }
